@@ -118,6 +118,7 @@ fn main() {
         }
         "famreplay" => misc::family_replay(&t, &a.s("in", "")),
         "gamereplay" => misc::game_replay(&t, &a.s("in", "")),
+        "keypairs" => misc::key_pairs(&t, &seeds(), &a.s("out", "."), a.n("shards", 16) as usize, a.n("seed", 1), a.n("playouts", 40) as usize, a.n("plies", 20) as usize),
         "slices" => misc::slice_events(&a.s("in", ""), &a.s("out", "")),
         "heavy" => {
             let v = srch::heavy_positions(&t, a.n("seed", 1), a.n("n", 10) as usize, a.n("queens", 8) as usize);
